@@ -26,7 +26,7 @@ func (rn *runner) runChunked(c *caseJSON) error {
 		body = c.Tree.serialise()
 		c.BodyHex = hx(body)
 	}
-	w, err := getWAF(wafKey{access: true, ctl: c.Ctl, bodyLimit: c.BodyLimit, reject: c.Reject})
+	w, err := getWAF(wafKey{access: true, ctl: c.Ctl, bodyLimit: c.BodyLimit, reject: c.Reject, inMem: c.InMem})
 	if err != nil {
 		return err
 	}
@@ -123,9 +123,41 @@ func (rn *runner) runChunked(c *caseJSON) error {
 		cur = &interner{names: map[string]string{}}
 	}
 
+	// what rules see is a function of the concatenation of the chunks: the same body handed over
+	// in one piece, everything held in memory, must expose exactly the same
+	flagged := inbound || interrupted
+	if !flagged {
+		rn.oracleN++
+		w1, err := getWAF(wafKey{access: true, ctl: c.Ctl})
+		if err != nil {
+			return err
+		}
+		t1 := w1.NewTransaction()
+		t1.ProcessURI("/p", "POST", "HTTP/1.1")
+		for _, h := range hs {
+			t1.AddRequestHeader(h.K, h.V)
+		}
+		t1.ProcessRequestHeaders()
+		if _, _, err := t1.WriteRequestBody([]byte(body)); err != nil {
+			return err
+		}
+		if _, err := t1.ProcessRequestBody(); err != nil {
+			return err
+		}
+		v1 := vars(t1)
+		same := sameMultiset(findAll(v1.ArgsPost()), post) && single(v1.RequestBody()) == rb &&
+			(single(v1.RequestBodyError()) == "1") == rerr &&
+			sameMultiset(findAll(v1.Files()), findAll(v.Files())) && sameMultiset(findAll(v1.FilesNames()), findAll(v.FilesNames())) &&
+			sameMultiset(findAll(v1.FilesSizes()), findAll(v.FilesSizes())) && single(v1.FilesCombinedSize()) == single(v.FilesCombinedSize()) &&
+			sameMultiset(findAll(v1.RequestXML()), findAll(v.RequestXML())) && sameMultiset(findAll(v1.Args()), findAll(v.Args()))
+		t1.Close()
+		if !same {
+			rn.fail("c03-chunking-changes-data", fmt.Sprintf("body of %d bytes in %d chunks (SecRequestBodyInMemoryLimit %d, SecRequestBodyLimit %d): the variables differ from those of the same body handed over in one piece, no error variable / interruption", len(body), len(c.Chunks), c.InMem, c.BodyLimit), c)
+		}
+	}
+
 	// the property's clause on limits
 	rn.oracleN++
-	flagged := inbound || interrupted
 	if c.BodyLimit > 0 && len(body) < c.BodyLimit && flagged {
 		rn.fail("c03-body-limit-false-alarm", "a body below SecRequestBodyLimit raised INBOUND_DATA_ERROR / an interruption", c)
 	}
